@@ -5,6 +5,9 @@ var plans = map[string][]planItem{
 	"C01": {{Scenario: "c01", Quick: 4000, Thorough: 400000}},
 	"C09": {{Scenario: "c01", Quick: 1500, Thorough: 100000}},
 	"C03": {{Scenario: "c03", Quick: 4000, Thorough: 400000}},
+	"C06": {{Scenario: "c06", Quick: 3000, Thorough: 200000}},
+	"C07": {{Scenario: "c07", Quick: 1500, Thorough: 60000}},
+	"C11": {{Scenario: "c11", Quick: 1440, Thorough: 144000}},
 	"C04": {{Scenario: "c04", Quick: 3000, Thorough: 300000}},
 	"C16": {{Scenario: "c16", Quick: 4000, Thorough: 400000}},
 	"C17": {{Scenario: "c17", Quick: 6000, Thorough: 600000}},
@@ -40,6 +43,9 @@ func comp(extraReal, extraStub []string) map[string]any {
 
 var propMeta = map[string]meta{
 	"C09": {Level: "exploration", Rule: "tbd", Components: comp(nil, nil), Assumptions: commonAssumptions},
+	"C06": {Level: "exploration", Rule: "tbd", Components: comp(nil, nil), Assumptions: commonAssumptions},
+	"C07": {Level: "exploration", Rule: "tbd", Components: comp(nil, nil), Assumptions: commonAssumptions},
+	"C11": {Level: "fault_enumeration", Rule: "tbd", Components: comp(nil, nil), Assumptions: commonAssumptions},
 	"C03": {
 		Level:       "exploration",
 		Rule:        "one run = one tunnel under a drawn host policy (mode in roundrobin/unsigned/any/signed, host list with/without the user placeholder and an IPv6 entry, user name incl. empty and user@domain, token host = configured entry or the requested string) requesting a configured entry or one of 16 near-miss kinds (port, prefix, suffix, superstring, embedded/doubled NUL, no terminator, other user's entry, bracketed, surrogate pair, odd-length UTF-16, over-long length field, name containing a port); oracle: independent UTF-16 decode + policy model; every dial of the run must be the authorised request verbatim, a refusal must carry E_PROXY_RAP_ACCESSDENIED and cause zero dials; listeners exist for allowed and forbidden names; non-trivial = the channel request was sent; distinct = journal shape",
